@@ -233,7 +233,7 @@ def model_check(chk, tier):
 STEPSTORES = os.path.join(core.VERIF, "tools", "bin", "stepstores")
 
 
-def conformance(chk, tier, binary):
+def conformance(chk, tier, binaries):
     """B1-style binding of the transcription: single-step the real calls of the DEBUG probe (tools/stepstores),
     log every store into the arena, and let TLC (MemAlgTrace.tla) run the transcription on the same calls
     with the real constants, demanding the same sequence of stores.  Divergence = model drift (reported,
@@ -250,22 +250,67 @@ def conformance(chk, tier, binary):
                 calls.append(("memmove", n, 80 + dm, 80 + dm + delta))
             calls.append(("memset", n, 32 + dm, 165))
     inp = os.path.join(chk.work, "steps.in")
-    out = os.path.join(chk.work, "steps.out")
-    log = os.path.join(chk.work, "steps.ndjson")
     with open(inp, "w") as f:
         f.write("steps\n" + "".join("%s %d %d %d\n" % c for c in calls))
     core.run_cmd(["make", "-s", "-C", os.path.join(core.VERIF, "tools"), "bin/stepstores"])
-    p = subprocess.run([STEPSTORES, binary, inp, out, log], stdout=subprocess.PIPE, stderr=subprocess.PIPE, timeout=1500)
-    if p.returncode != 0:
-        raise core.ToolError("stepstores failed: %s" % p.stderr.decode()[-500:])
-    lines = [json.loads(l) for l in open(out) if l.startswith('{"f":"mem') and l.rstrip().endswith("}")]
-    steps = [json.loads(l) for l in open(log)]
-    m = min(len(lines), len(steps))
-    recs = []
-    for c, s in list(zip(lines, steps))[:m]:
-        if "died" in s:
-            break
-        recs.append({"f": c["f"], "n": c["n"], "d": c["d"], "s": c.get("s", 0), "c": c.get("c", 0), "stores": s["stores"]})
+
+    def step(build, binary):
+        out = os.path.join(chk.work, "steps_%s.out" % build)
+        log = os.path.join(chk.work, "steps_%s.ndjson" % build)
+        p = subprocess.run([STEPSTORES, binary, inp, out, log], stdout=subprocess.PIPE, stderr=subprocess.PIPE, timeout=1500)
+        if p.returncode != 0:
+            raise core.ToolError("stepstores failed: %s" % p.stderr.decode()[-500:])
+        lines = [json.loads(l) for l in open(out) if l.startswith('{"f":"mem') and l.rstrip().endswith("}")]
+        steps = [json.loads(l) for l in open(log)]
+        rs = []
+        for c, s in list(zip(lines, steps)):
+            if "died" in s:
+                break
+            rs.append({"build": build, "f": c["f"], "n": c["n"], "d": c["d"], "s": c.get("s", 0), "c": c.get("c", 0), "stores": s["stores"]})
+        return rs, steps
+
+    # clause write_outside on the store log (debug AND release): no store may leave [d, d+n) - judged by TLC
+    all_logs = []
+    for build in ("debug", "release"):
+        if build in binaries:
+            rs, st = step(build, binaries[build])
+            all_logs.append((build, rs, st))
+    judged = [r for _, rs, _ in all_logs for r in rs]
+    store_info = {"calls": len(judged), "builds": [b for b, _, _ in all_logs]}
+    if judged:
+        spath = os.path.join(chk.work, "stores_all.ndjson")
+        canary = dict(judged[-1], stores=judged[-1]["stores"] + [[judged[-1]["d"] + judged[-1]["n"], 1]])   # one byte behind the range
+        core.write_ndjson(spath, judged + [canary])
+        res = core.run_tlc("MemStores.tla", "MemStores.cfg", workers=1, env={"TRACE": spath}, timeout=3000, xmx="4g")
+        core.tlc_must_pass(res, "MemStores")
+        with _LOCK:
+            chk.add_tlc(res)
+        j = res.printed("JUDGED")
+        if len(j) != 1 or j[0]["n"] != len(judged) + 1:
+            raise core.ToolError("MemStores did not report on all %d store logs" % len(judged))
+        bad = {b["i"]: b["stores"] for b in j[0]["bad"]}
+        if len(judged) + 1 not in bad:
+            raise core.ToolError("MemStores accepted a store behind the destination range (vacuous judge?)")
+        del bad[len(judged) + 1]
+        store_info["stores_judged"] = sum(len(r["stores"]) for r in judged)
+        store_info["canaries_rejected"] = 1
+        for i, ks in sorted(bad.items()):
+            r = judged[i - 1]
+            outside = [r["stores"][k - 1] for k in ks]
+            with _LOCK:
+                chk.violate({"fn": r["f"], "kind": "write_outside", "seen_by": "store_log", "path": "words" if r["n"] >= THRESHOLD else "bytes"},
+                            "[%s] %s(n=%d, dst=arena+%d, %s): store(s) %s leave the destination range [%d, %d) (single-stepped with a "
+                            "concurrent writer of the neighbouring bytes; all stores: %s)" % (
+                                r["build"], r["f"], r["n"], r["d"], ("src=arena+%d" % r["s"]) if r["f"] != "memset" else "c=%d" % r["c"],
+                                outside, r["d"], r["d"] + r["n"], json.dumps(r["stores"])[:300]),
+                            {"build": r["build"], "record": r, "replay_cmd": None, "steps_line": "%s %d %d %d" % (
+                                r["f"], r["n"], r["d"], r["c"] if r["f"] == "memset" else r["s"])})
+        with _LOCK:
+            chk.evaluations += len(judged)
+            chk.traces += len(judged) - len(bad)
+    chk.extra["store_log"] = store_info
+    recs, steps = (all_logs[0][1], all_logs[0][2]) if all_logs and all_logs[0][0] == "debug" else ([], [])
+    recs = [{k: r[k] for k in ("f", "n", "d", "s", "c", "stores")} for r in recs]
     info = {"calls_single_stepped": len(recs), "of": len(calls), "instructions": sum(s["steps"] for s in steps[:len(recs)])}
     if recs:
         trace = os.path.join(chk.work, "steps_trace.ndjson")
@@ -326,7 +371,7 @@ def run(tier):
             bdir = core.cargo_build(template="probe/mem-" + mode, release=True)
             builds[mode + "-release"] = os.path.join(bdir, "memprobe")
     try:
-        conformance(chk, tier, builds["debug"])
+        conformance(chk, tier, builds)
     except (core.ToolError, OSError, subprocess.SubprocessError, ValueError) as e:
         # the step-level binding is auxiliary evidence (needs ptrace): its failure must not hide the verdict
         core.log("C08: step-level conformance not available: %s" % str(e)[:300])
@@ -427,6 +472,18 @@ def run(tier):
 def replay(path):
     rp = json.load(open(path))["replay"]
     chk = core.Check("C08", "quick", "exploration")
+    if rp.get("steps_line"):
+        # a store-log violation: single-step that one call again and judge its stores
+        bdir = core.cargo_build(template="probe/mem", release=rp.get("build") == "release")
+        inp = os.path.join(chk.work, "replay_steps.in")
+        open(inp, "w").write("steps\n%s\n" % rp["steps_line"])
+        out, log = inp + ".out", inp + ".ndjson"
+        subprocess.run([STEPSTORES, os.path.join(bdir, "memprobe"), inp, out, log], timeout=120)
+        s = json.loads(open(log).readline())
+        r = rp["record"]
+        inside = all(r["d"] <= a and a + l <= r["d"] + r["n"] for a, l in s["stores"])
+        print("replayed %r: stores %s -> %s" % (rp["steps_line"], s["stores"], "accepted" if inside else "REJECTED (a store leaves [d, d+n))"))
+        return 0 if inside else 1
     cmd = rp.get("replay_cmd")
     if not cmd:
         cmd = rp.get("cmd")
